@@ -300,6 +300,83 @@ theorem C10_adapter_progress (a : AConfig) (hw : a.watchesCtx = true) (hc : a.p.
     | none => simp [hp] at hen
     | some p' => simp [astep, hp, hne]
 
+/-- measure of a `ModelServer` Pull handler on top of an adapter -/
+def gmu (g : GConfig) : Nat := amu g.a + (if g.gDone then 0 else 1)
+
+/-- The gRPC Pull handlers of the trait `ModelServer`s (a loop over the ADAPTER's channel that returns on the close
+or as soon as `server.Send` fails) terminate together with everything underneath: once the bus channel is closed,
+every enabled step — of the subscription, the adapter, the handler's loop, its return on a failed Send or on the
+close — strictly decreases `gmu`; only a repeated `cancel` leaves it unchanged. -/
+theorem C10_server_handler_measure (g g' : GConfig) (m : GMove) (hin : g.a.p.inClosed = true)
+    (hs : gstep g m = some g') :
+    g'.a.p.inClosed = true ∧ (m = .ad (.pipe .cancel) → gmu g' = gmu g) ∧ (m ≠ .ad (.pipe .cancel) → gmu g' < gmu g) := by
+  cases m with
+  | ad am =>
+    simp only [gstep] at hs
+    split at hs
+    · cases hs
+    · cases ha : astep g.a am with
+      | none => simp [ha] at hs
+      | some a' =>
+        simp [ha] at hs; subst hs
+        obtain ⟨x, y, z⟩ := C10_adapter_measure g.a a' am hin ha
+        refine ⟨x, ?_, ?_⟩
+        · intro e; cases e; simp [gmu, y rfl]
+        · intro e
+          have := z (fun e' => e (by rw [e']))
+          simp only [gmu]; omega
+  | gFail =>
+    simp only [gstep] at hs
+    split at hs
+    · rename_i hg; simp only [Option.some.injEq] at hs; subst hs
+      refine ⟨hin, ?_, fun _ => ?_⟩
+      · intro e; cases e
+      · simp [gmu, hg]
+    · cases hs
+  | gExit =>
+    simp only [gstep] at hs
+    split at hs
+    · rename_i hg; simp only [Option.some.injEq] at hs; subst hs
+      refine ⟨hin, ?_, fun _ => ?_⟩
+      · intro e; cases e
+      · simp [gmu, hg.1]
+    · cases hs
+
+/-- … and cannot get stuck, whether the stream's `Send` ever fails or not and whether the handler keeps receiving
+or has long returned: after the cancel and the close of the bus channel, until every goroutine of the subscription,
+the adapter AND the handler have returned, a step that needs neither another loop iteration of the handler nor a
+failing `Send` is enabled: an exit of a stage, the adapter's `range` seeing the close or its `ctx.Done()` case, the
+handler's `range` seeing the adapter's close.  (`Tidy`, `ATidy`: a returned stage / adapter holds nothing —
+invariants, `tidy_step`, `atidy_step`.) -/
+theorem C10_server_handler_progress (g : GConfig) (hw : g.a.watchesCtx = true) (hc : g.a.p.cancelled = true)
+    (hin : g.a.p.inClosed = true) (ht : g.a.p.Tidy) (hat : g.a.ATidy)
+    (hnd : ¬ (g.a.p.allDone = true ∧ g.a.aDone = true ∧ g.gDone = true)) :
+    ∃ m, m ≠ .ad .aSend ∧ m ≠ .ad .aRecv ∧ m ≠ .gFail ∧ (gstep g m).isSome := by
+  by_cases ha : g.a.p.allDone = true ∧ g.a.aDone = true
+  · have hd : g.gDone = false := by
+      cases hd : g.gDone with
+      | false => rfl
+      | true => exact absurd ⟨ha.1, ha.2, hd⟩ hnd
+    exact ⟨.gExit, by simp, by simp, by simp, by simp [gstep, hd, ha.2, hat ha.2]⟩
+  · obtain ⟨am, h1, h2, hen⟩ := C10_adapter_progress g.a hw hc hin ht ha
+    refine ⟨.ad am, ?_, ?_, by simp, ?_⟩
+    · intro e; cases e; exact h1 rfl
+    · intro e; cases e; exact h2 rfl
+    · cases hs : astep g.a am with
+      | none => simp [hs] at hen
+      | some a' => simp [gstep, hs, h1]
+
+/-- non-vacuity: an `onoffpb`-like server stream (lossy Value.Pull ▸ adapter ▸ handler) whose `Send` failed while the
+adapter holds a change: cancel ▸ close, then DropExcess, the forwarder and the adapter (through `ctx.Done()`) return;
+`gmu` goes from 6 to 0 without any step of the handler or the client. -/
+example :
+    let g0 : GConfig := ⟨⟨{ hasEx := true, exMerge := false, hasPid := false, target := 0, fixed := true,
+                             keep := fun _ => true, cancelled := true, inClosed := true }, true, true, false⟩, true⟩
+    gmu g0 = 6 ∧
+    (((gstep g0 (.ad (.pipe .exExit))).bind fun g => (gstep g (.ad (.pipe .fwExitIn))).bind fun g =>
+        gstep g (.ad .aExitCtx)).map gmu) = some 0 := by
+  decide
+
 /-- The adapters before fix aa57613 (`watchesCtx = false`, a bare `send <- change`) violate the property, in the
 model as on the real code (signature `C10/trait/model/goroutine-leak`): the subscriber stopped receiving, a write
 arrived, then the cancel — the subscription underneath has terminated completely, the adapter still holds the
